@@ -1345,6 +1345,103 @@ impl IQLEngine {
         order
     }
 
+    /// Partition the execution order into groups that must be evaluated together.
+    ///
+    /// Every group is a strongly connected component of the "scans the result of"
+    /// graph between IR nodes. Without mutual recursion every component is a single
+    /// node and the given order is returned unchanged, one node per group. With
+    /// mutual recursion the components are returned dependencies-first, and the
+    /// component holding the query (the last node of `order`) is moved to the end.
+    fn execution_groups(&self, rule_heads: &[String], order: &[usize]) -> Vec<Vec<usize>> {
+        let n = self.ir_nodes.len();
+        let head_to_idx: HashMap<&str, usize> = rule_heads
+            .iter()
+            .enumerate()
+            .map(|(i, name)| (name.as_str(), i))
+            .collect();
+        let mut deps: Vec<Vec<usize>> = vec![Vec::new(); n];
+        for (i, ir) in self.ir_nodes.iter().enumerate() {
+            let mut scans = Vec::new();
+            Self::collect_scan_relations(ir, &mut scans);
+            for scan_name in &scans {
+                if let Some(&j) = head_to_idx.get(scan_name.as_str()) {
+                    if j != i && j < n && !deps[i].contains(&j) {
+                        deps[i].push(j);
+                    }
+                }
+            }
+        }
+
+        // Tarjan's algorithm (iterative); components come out dependencies-first.
+        let mut index: Vec<Option<usize>> = vec![None; n];
+        let mut low: Vec<usize> = vec![0; n];
+        let mut on_stack: Vec<bool> = vec![false; n];
+        let mut stack: Vec<usize> = Vec::new();
+        let mut next_index = 0usize;
+        let mut components: Vec<Vec<usize>> = Vec::new();
+        for &start in order {
+            if start >= n || index[start].is_some() {
+                continue;
+            }
+            let mut work: Vec<(usize, usize)> = vec![(start, 0)];
+            while let Some(&mut (v, ref mut child)) = work.last_mut() {
+                if *child == 0 {
+                    index[v] = Some(next_index);
+                    low[v] = next_index;
+                    next_index += 1;
+                    stack.push(v);
+                    on_stack[v] = true;
+                }
+                if *child < deps[v].len() {
+                    let w = deps[v][*child];
+                    *child += 1;
+                    if index[w].is_none() {
+                        work.push((w, 0));
+                    } else if on_stack[w] {
+                        low[v] = low[v].min(index[w].unwrap_or(0));
+                    }
+                } else {
+                    if Some(low[v]) == index[v] {
+                        let mut component = Vec::new();
+                        while let Some(w) = stack.pop() {
+                            on_stack[w] = false;
+                            component.push(w);
+                            if w == v {
+                                break;
+                            }
+                        }
+                        components.push(component);
+                    }
+                    work.pop();
+                    if let Some(&(parent, _)) = work.last() {
+                        low[parent] = low[parent].min(low[v]);
+                    }
+                }
+            }
+        }
+
+        if components.iter().all(|c| c.len() == 1) {
+            return order.iter().map(|&i| vec![i]).collect();
+        }
+
+        // Keep the members of a component in their original relative order
+        let position: HashMap<usize, usize> =
+            order.iter().enumerate().map(|(pos, &i)| (i, pos)).collect();
+        for component in &mut components {
+            component.sort_by_key(|i| position.get(i).copied().unwrap_or(usize::MAX));
+        }
+        if let Some(&query_idx) = order.last() {
+            if let Some(pos) = components.iter().position(|c| c.contains(&query_idx)) {
+                let query_component = components.remove(pos);
+                components.push(query_component);
+            }
+        }
+        if std::env::var("IL_DEBUG").is_ok() {
+            eprintln!("DEBUG execution_groups: {components:?}");
+        }
+        components
+    }
+
     fn collect_scan_relations(ir: &IRNode, scans: &mut Vec<String>) {
         match ir {
             IRNode::Scan { relation, .. } => {
@@ -1649,57 +1746,110 @@ impl IQLEngine {
         let execution_order = self.topological_sort_ir_nodes(&rule_heads);
         let mut last_result: Vec<Tuple> = Vec::new();
 
-        for &i in &execution_order {
-            let head_name = rule_heads.get(i).cloned().unwrap_or_default();
+        // Mutually recursive relations (a <- b, b <- a) need a joint fixpoint: the
+        // nodes of such a group are re-executed until none of their results changes.
+        // Groups of a single node (including self-recursive ones, which run their own
+        // fixpoint) execute exactly once, in the order computed above.
+        let execution_groups = self.execution_groups(&rule_heads, &execution_order);
 
-            // Create fresh CodeGenerator for each rule (avoids timely state issues)
-            let mut codegen = CodeGenerator::new();
-            codegen.set_max_result_rows(self.max_result_rows);
-            // Set per-rule semiring type from boolean specialization
-            let semiring = self
-                .semiring_annotations
-                .get(i)
-                .map_or(boolean_specialization::SemiringType::Counting, |a| {
-                    a.semiring
-                });
-            codegen.set_semiring_type(semiring);
-            self.load_inputs_into_codegen(&mut codegen, &accumulated_results);
-
-            let is_recursive = recursive_info.get(i).is_some_and(Option::is_some);
-
-            // Use unoptimized IR for recursive nodes, optimized for others
-            let (exec_result, rule_us) = collector.time(|| {
-                if let Some(Some(recursive_rel)) = recursive_info.get(i) {
-                    codegen.execute_recursive(&unoptimized_ir_nodes[i], recursive_rel)
-                } else if self.num_workers > 1 {
-                    // Use parallel execution when configured for multi-worker
-                    let config = code_generator::ExecutionConfig::with_workers(self.num_workers);
-                    codegen.execute_with_config(&self.ir_nodes[i], config)
-                } else {
-                    codegen.execute(&self.ir_nodes[i])
+        for group in &execution_groups {
+            let is_cyclic_group = group.len() > 1;
+            let mut group_rounds = 0usize;
+            loop {
+                let mut group_changed = false;
+                group_rounds += 1;
+                if group_rounds > 100_000 {
+                    return Err("Mutually recursive rules did not reach a fixpoint".to_string());
                 }
-            });
-            let result = exec_result?;
+                for &i in group {
+                    let head_name = rule_heads.get(i).cloned().unwrap_or_default();
 
-            last_result.clone_from(&result);
+                    // Create fresh CodeGenerator for each rule (avoids timely state issues)
+                    let mut codegen = CodeGenerator::new();
+                    codegen.set_max_result_rows(self.max_result_rows);
+                    // Set per-rule semiring type from boolean specialization
+                    let semiring = self
+                        .semiring_annotations
+                        .get(i)
+                        .map_or(boolean_specialization::SemiringType::Counting, |a| {
+                            a.semiring
+                        });
+                    codegen.set_semiring_type(semiring);
+                    self.load_inputs_into_codegen(&mut codegen, &accumulated_results);
 
-            // Store results for subsequent rules
-            if !head_name.is_empty() {
-                accumulated_results.insert(head_name.clone(), result);
+                    let is_recursive = recursive_info.get(i).is_some_and(Option::is_some);
+
+                    // Use unoptimized IR for recursive nodes, optimized for others
+                    let (exec_result, rule_us) = collector.time(|| {
+                        if let Some(Some(recursive_rel)) = recursive_info.get(i) {
+                            codegen.execute_recursive(&unoptimized_ir_nodes[i], recursive_rel)
+                        } else if self.num_workers > 1 {
+                            // Use parallel execution when configured for multi-worker
+                            let config =
+                                code_generator::ExecutionConfig::with_workers(self.num_workers);
+                            codegen.execute_with_config(&self.ir_nodes[i], config)
+                        } else {
+                            codegen.execute(&self.ir_nodes[i])
+                        }
+                    });
+                    let result = exec_result?;
+
+                    last_result.clone_from(&result);
+
+                    if is_cyclic_group {
+                        let changed = match accumulated_results.get(&head_name) {
+                            Some(prev) => {
+                                let prev_set: std::collections::HashSet<&Tuple> =
+                                    prev.iter().collect();
+                                let new_set: std::collections::HashSet<&Tuple> =
+                                    result.iter().collect();
+                                prev_set != new_set
+                            }
+                            None => true,
+                        };
+                        group_changed |= changed;
+                    }
+
+                    // Store results for subsequent rules
+                    if !head_name.is_empty() {
+                        accumulated_results.insert(head_name.clone(), result);
+                    }
+
+                    collector.record_rule(
+                        head_name.clone(),
+                        rule_us,
+                        is_recursive,
+                        self.num_workers,
+                    );
+
+                    let rule_ms = rule_us / 1000;
+                    info!(
+                        source_len,
+                        rule_idx = i,
+                        rule_head = %head_name,
+                        rule_ms,
+                        recursive = is_recursive,
+                        workers = self.num_workers,
+                        "engine_rule_complete"
+                    );
+                }
+                if !is_cyclic_group || !group_changed {
+                    break;
+                }
             }
+        }
 
-            collector.record_rule(head_name.clone(), rule_us, is_recursive, self.num_workers);
-
-            let rule_ms = rule_us / 1000;
-            info!(
-                source_len,
-                rule_idx = i,
-                rule_head = %head_name,
-                rule_ms,
-                recursive = is_recursive,
-                workers = self.num_workers,
-                "engine_rule_complete"
-            );
+        // The answer is the query relation (head of the last parsed rule); inside a
+        // mutually recursive group the node executed last need not be the query's.
+        if let Some(query_head) = self
+            .program
+            .as_ref()
+            .and_then(|p| p.rules.last())
+            .map(|r| r.head.relation.clone())
+        {
+            if let Some(rows) = accumulated_results.get(&query_head) {
+                last_result.clone_from(rows);
+            }
         }
 
         info!(
